@@ -35,9 +35,7 @@ def isUpperB (b : UInt8) : Bool := 65 ≤ b && b ≤ 90
 def isLowerB (b : UInt8) : Bool := 97 ≤ b && b ≤ 122
 
 /-- membership of a letter in a definition, in either case for uncased alphabets -/
-def inDef (d : Def) (l : UInt8) : Bool :=
-  if d.cased then d.letters.contains l
-  else d.letters.any fun x => toLower x == toLower l
+def inDef (d : Def) (l : UInt8) : Bool := inDefinition d.cased d.letters l
 
 /-- The statement of C17 for one letter of a built-in alphabet, evaluated on the
     implementation's observation (tokens of the `b` line). -/
@@ -69,6 +67,79 @@ def specB (d : Def) (l : UInt8) (t : List String) : Option String :=
   | _ => some "unparsable-observation"
 
 def errObs (e : Err) : String := "err:" ++ e.code
+
+/-- 256 booleans from the 64 hex digits of a bitmap token -/
+def bitsOfBitmap (s : String) : Option (Array Bool) :=
+  if s.length ≠ 64 then none else
+  s.toList.foldl (fun acc ch => match acc, hexVal ch with
+    | some a, some v => some (a ++ #[v / 8 % 2 == 1, v / 4 % 2 == 1, v / 2 % 2 == 1, v % 2 == 1])
+    | _, _ => none) (some #[])
+
+/-- the hypothesis of the property on a definition: ASCII letters, distinct (after lower-casing
+    when the alphabet is not case sensitive) -/
+def validDefinition (cased : Bool) (ls : List UInt8) : Bool :=
+  ls.all (· < 128) && decide ((if cased then ls else ls.map toLower).Nodup)
+
+def firstBad (p : Nat → Bool) : Option Nat := (List.range 256).find? (fun l => !p l)
+
+/-- The statement of C17 for an alphabet built from a valid definition, evaluated on the
+    implementation's observation of `NewAlphabet` (tokens of an accepted `na` line):
+    validity ⇔ membership, IndexOf negative ⇔ invalid, Letter/IndexOf mutually inverse on
+    0..Len-1, Len = length of the definition. -/
+def specNA (cased : Bool) (ls : List UInt8) (t : List String) : Option String :=
+  match t with
+  | ["ok", len, vbm, idx, letters, _, _, _] =>
+    match parseNat len, bitsOfBitmap vbm, parseInts idx, bytesOfHex letters with
+    | some len, some valid, some idx, some letters =>
+      let idx := idx.toArray
+      let letters := letters.toArray
+      let v (l : Nat) : Bool := valid.getD l false
+      let ix (l : Nat) : Int := idx.getD l (-1)
+      if idx.size ≠ 256 then some "unparsable-observation"
+      else if len ≠ ls.length then some "len-is-definition-length"
+      else match firstBad (fun l => v l == inDefinition cased ls (UInt8.ofNat l)) with
+      | some l => some s!"valid-iff-in-definition letter={l}"
+      | none =>
+      match firstBad (fun l => (ix l < 0) == !v l) with
+      | some l => some s!"indexOf-negative-iff-invalid letter={l}"
+      | none =>
+      match (List.range len).find? (fun i =>
+          match letters[i]? with
+          | some x => !(v x.toNat && ix x.toNat == (i : Int))
+          | none => true) with
+      | some i => some s!"indexOf-letter-inverse index={i}"
+      | none =>
+      match firstBad (fun l => !v l ||
+          (0 ≤ ix l && ix l < len &&
+           match letters[(ix l).toNat]? with
+           | some x => if cased then x.toNat == l else toLower x == toLower (UInt8.ofNat l)
+           | none => false)) with
+      | some l => some s!"letter-indexOf-inverse letter={l}"
+      | none => none
+    | _, _, _, _ => some "unparsable-observation"
+  | _ => some "unparsable-observation"
+
+/-- The statement of C17 for an accepted pairing, evaluated on the implementation's
+    observation of `NewPairing`: the complement is an involution on all 256 letters, and the
+    table holds the method's result with the high bit set exactly when `ok` is false. -/
+def specNP (t : List String) : Option String :=
+  match t with
+  | ["ok", pair, okbm, comp] =>
+    match bytesOfHex pair, bitsOfBitmap okbm, bytesOfHex comp with
+    | some pair, some okb, some comp =>
+      let pair := pair.toArray
+      let comp := comp.toArray
+      if pair.size ≠ 256 || comp.size ≠ 256 then some "unparsable-observation"
+      else match firstBad (fun l => (pair.getD (pair.getD l 0).toNat 0).toNat == l) with
+      | some l => some s!"complement-involutive letter={l}"
+      | none =>
+      match firstBad (fun l =>
+          let c := pair.getD l 0
+          comp.getD l 0 == (if okb.getD l false then c else c ||| 128)) with
+      | some l => some s!"table-agrees-with-method letter={l}"
+      | none => none
+    | _, _, _ => some "unparsable-observation"
+  | _ => some "unparsable-observation"
 
 def handleTokens (inp : List String) (obs : String) : Verdict :=
   let ot := tokens obs
@@ -133,7 +204,11 @@ def handleTokens (inp : List String) (obs : String) : Verdict :=
       | .ok a =>
         let idx := allBytes.map a.index
         let m := s!"ok {a.length} {bitmap a.valid} {showInts idx} {hexOfBytes a.letters} {showBool a.cased} {gap} {amb}"
-        if m == obs then ok tags else diff m tags
+        let tags := tags ++ (if validDefinition cased ls then ["valid-definition"] else ["duplicate-letters"])
+        if obs.startsWith "err:" then (if m == obs then ok tags else diff m tags)
+        else match (if validDefinition cased ls then specNA cased ls ot else none) with
+        | some why => fail why tags
+        | none => if m == obs then ok tags else diff m tags
     | _, _, _, _ => bad "na"
   | ["np", hs, hc] =>
     match bytesOfHex hs, bytesOfHex hc with
@@ -147,7 +222,10 @@ def handleTokens (inp : List String) (obs : String) : Verdict :=
       | .ok p =>
         let tags := ["newpairing", "accepted"] ++ (if s.isEmpty then [] else ["nt"])
         let m := s!"ok {hexOfBytes (allBytes.map p.pair)} {bitmap p.ok} {hexOfBytes (allBytes.map p.complements)}"
-        if m == obs then ok tags else diff m tags
+        if obs.startsWith "err:" then diff m tags
+        else match specNP ot with
+        | some why => fail why tags
+        | none => if m == obs then ok tags else diff m tags
     | _, _ => bad "np"
   | ["nc", cased, hl, hs, hc] =>
     match parseBool cased, bytesOfHex hl, bytesOfHex hs, bytesOfHex hc with
